@@ -210,6 +210,7 @@ class FnSpec:
         self.rename = None
         self.noauto = False
         self.sig_only = False
+        self.panic_diverges = False
 
 
 def _is_closure_start(toks, k):
@@ -529,6 +530,17 @@ def extract_fn(src, selector, spec):
                 ed.rep(t.start, toks[k + 7].end, 'vx_iter_any(&%s, ' % t.text)
                 k += 8
                 continue
+            # R14 (only under the directive `//@ panic-diverges`): a `panic!(..)` statement becomes a call of
+            # `vx_diverge()`, an external_body function returning `!` without precondition.  vstd gives
+            # panic the specification `requires false` (= "must be unreachable"); for a function whose
+            # *contract* is "rejects by panicking" the rejecting path must be allowed and the
+            # postcondition then speaks about the returning paths only.
+            if spec.panic_diverges and t.kind == 'ident' and t.text == 'panic' and toks[k + 1].text == '!' and toks[k + 2].kind == 'open' \
+               and toks[k - 1].text in ('{', ';', '}'):
+                c = match[k + 2]
+                ed.rep(t.start, toks[c].end, 'vx_diverge()')
+                k = c + 1
+                continue
             # R13: `let &PAT = &EXPR;` -> `let PAT = EXPR;`  (Verus rejects reference patterns.  The
             # original compiles, so every binding of PAT is Copy - a non-Copy binding cannot be moved
             # out of a borrow - hence destructuring the place by value copies the same fields and
@@ -675,7 +687,7 @@ def find_method(src, type_name, fn_name):
         for (k2, n2, kw2, b2, e2) in _items(src, body + 1, end):
             if k2 == 'fn' and n2 == fn_name:
                 header = src.text[src.toks[kw].start:src.toks[body].start].strip()
-                res.append((header, 'impl %s :: fn %s' % (src.text[src.toks[kw].end:src.toks[body].start].strip(), fn_name)))
+                res.append((header, 'impl %s :: fn %s' % (' '.join(src.text[src.toks[kw].end:src.toks[body].start].split()), fn_name)))
     return res
 
 
@@ -764,6 +776,8 @@ def render(template_path, repo_root):
                     spec.nobody = True
                 elif head == 'noauto':
                     spec.noauto = True
+                elif head == 'panic-diverges':
+                    spec.panic_diverges = True
                 elif head == 'sig-only':
                     # for assumed (external_body) functions: only the signature is copied, the
                     # body is replaced by `unimplemented!()` (it is not verified anyway)
